@@ -192,6 +192,20 @@ func c11Run(c *core.Ctx) {
 			}
 		}
 	}
+	// words and separators that are not valid UTF-8 (a Latin-1 word file): each
+	// invalid byte is one character; chosen so that no token ends in a byte
+	// that could combine with the start of the next one
+	for _, cp := range []string{"none", "all", "one"} {
+		for _, sp := range []Sep{{Kind: "none"}, {Kind: "char", Char: "-"}, {Kind: "char", Char: "\xb7"}, {Kind: "SFDigits1"}} {
+			w := WLCase{Words: []string{"caf\xe9", "na\xefve", "b", "\xff"}, Length: 2, Cap: cp, Sep: sp}
+			if c.Mine() {
+				c11WLCase(c, w, CellOpt{DepthCut: 64, Fallback: 2, MaxMenu: 20000, MaxLeaves: 5000, Dev: -1})
+			}
+		}
+	}
+	if c.Mine() {
+		c11CharCase(c, ref.CharRecipe{Length: 2, AllowChars: "a\xff\xfe"})
+	}
 	// character recipes over multi-byte alphabets
 	for _, ab := range []string{"éü💩", "aé", "💩", "ab", "é"} {
 		for L := 1; L <= 3; L++ {
